@@ -76,6 +76,20 @@ func GenC16(seed uint64, i int) *world.Case {
 		for k := 0; k < 1+r.Intn(3); k++ {
 			c.Script = append(c.Script, world.Step{Op: "runargs", ID: fmt.Sprintf("a%d", k), Variant: "args", ArgSpec: genArgSpec(r), MustSucceed: true})
 		}
+	case x < 7 && r.Chance(0.5):
+		// A Result reachable both directly and through another Result argument,
+		// with the last invocation wide enough to land on machines that have run
+		// nothing of the earlier ones (they must compile the nested invocations
+		// bottom-up before their first task).
+		c.Config.Executor, c.Config.Procs, c.Config.Parallelism = "cluster", 1, r.Pick(4, 8)
+		a1 := genArgSpec(r)
+		a1.NShard = 1
+		c.Script = append(c.Script, world.Step{Op: "runargs", ID: "r1", Variant: "args", ArgSpec: a1, MustSucceed: true})
+		c.Script = append(c.Script, world.Step{Op: "runargs", ID: "r2", Variant: "slices", ArgSpec: &interp.ArgSpec{NShard: 1, S: "mid"}, Args: []string{"r1", ""}, MustSucceed: true})
+		c.Script = append(c.Script, world.Step{Op: "runargs", ID: "r3", Variant: "slices", ArgSpec: &interp.ArgSpec{NShard: r.Pick(3, 4, 5), S: "top"}, Args: []string{"r2", "r1"}, MustSucceed: true})
+		if r.Chance(0.5) {
+			c.Script = append(c.Script, world.Step{Op: "runargs", ID: "r4", Variant: "slices", ArgSpec: &interp.ArgSpec{NShard: r.Pick(4, 6), S: "top2"}, Args: []string{"r3", "r1"}, MustSucceed: true})
+		}
 	case x < 7:
 		// Results as Slice-typed arguments, nested, and nil Slices.
 		c.Script = append(c.Script, world.Step{Op: "runargs", ID: "r1", Variant: "args", ArgSpec: genArgSpec(r), MustSucceed: true})
@@ -84,6 +98,23 @@ func GenC16(seed uint64, i int) *world.Case {
 		if r.Chance(0.5) {
 			c.Script = append(c.Script, world.Step{Op: "runargs", ID: "r4", Variant: "slices", ArgSpec: &interp.ArgSpec{NShard: 2, S: "nils"}, Args: []string{"", ""}, MustSucceed: true})
 		}
+	case x < 9 && r.Chance(0.35):
+		// An invocation that is never run itself (its Func hands its Result
+		// argument through) carries an unencodable argument; it reaches the
+		// executor only when a later Func uses its Result: that must fail at
+		// once on the cluster executor, without retries.
+		bad := []string{"unexported", "unregistered", ""}[r.Intn(3)]
+		c.Script = append(c.Script, world.Step{Op: "runargs", ID: "r1", Variant: "args", ArgSpec: genArgSpec(r), MustSucceed: true})
+		c.Script = append(c.Script, world.Step{Op: "runargs", ID: "p1", Variant: "pass", ArgSpec: &interp.ArgSpec{Bad: bad}, Args: []string{"r1"}})
+		st := world.Step{Op: "runargs", ID: "r3", Variant: "slices", ArgSpec: &interp.ArgSpec{NShard: r.Pick(1, 3), S: "after-pass"}, Args: []string{"p1", ""}}
+		if bad == "" {
+			st.MustSucceed = true
+		} else if cfg.Executor == "cluster" {
+			st.MustFail = true
+			c.Oracle.Graph = false
+		}
+		c.Script = append(c.Script, st)
+		c.Script = append(c.Script, world.Step{Op: "runargs", ID: "ok1", Variant: "args", ArgSpec: genArgSpec(r), MustSucceed: true})
 	case x < 9:
 		// Unencodable arguments: a prompt fatal error on the cluster executor.
 		bad := []string{"func", "chan", "unexported", "unregistered", ""}[r.Intn(5)]
